@@ -459,23 +459,23 @@ type ClientReq struct {
 	AppHeaders  [][2]string
 	Msgs        []WireMsg
 	// REST / raw
-	HTTPMethod string
-	Path       string // may contain raw escapes
-	RawQuery   string
-	RawBody    []byte // if non-nil, replaces the rendered body
-	ExtraHdrs  [][2]string // raw control headers to add/override (hostile inputs)
+	HTTPMethod       string
+	Path             string // may contain raw escapes
+	RawQuery         string
+	RawBody          []byte      // if non-nil, replaces the rendered body
+	ExtraHdrs        [][2]string // raw control headers to add/override (hostile inputs)
 	OmitProtoVersion bool
-	GetBase64  *bool // connect-get: force base64 on/off
-	ContentType string // override
+	GetBase64        *bool  // connect-get: force base64 on/off
+	ContentType      string // override
 }
 
 type RenderedReq struct {
-	Method   string
-	Target   string // request-target
-	Headers  [][2]string
-	Body     []byte
-	HasBody  bool
-	Bounds   []int // offsets at which a frame ends (for enveloped forms); len(body) included
+	Method  string
+	Target  string // request-target
+	Headers [][2]string
+	Body    []byte
+	HasBody bool
+	Bounds  []int // offsets at which a frame ends (for enveloped forms); len(body) included
 }
 
 func codecContentSuffix(codec string) string { return codec }
@@ -657,20 +657,20 @@ func queryEscape(s string) string {
 // client side: response parsing and validation (C03 validator lives here)
 
 type Outcome struct {
-	Kind       string              `json:"kind"` // ok | error | bare-http | invalid
-	HTTPStatus int                 `json:"http_status"`
-	Err        *ErrSpec            `json:"err,omitempty"`
-	Msgs       [][]byte            `json:"msgs,omitempty"` // canonical bytes of decoded response messages
-	RawMsgs    [][]byte            `json:"-"`               // payloads as decoded from the wire (after decompression)
-	Headers    map[string][]string `json:"headers,omitempty"`
-	Trailers   map[string][]string `json:"trailers,omitempty"`
-	Problems   []string            `json:"problems,omitempty"`
-	Terminals  int                 `json:"terminals"`
-	ContentType string             `json:"content_type,omitempty"`
-	RespCompression string         `json:"resp_compression,omitempty"`
-	BareBody   string              `json:"bare_body,omitempty"`
-	TrailersOnly bool              `json:"trailers_only,omitempty"`
-	Allow      []string            `json:"allow,omitempty"`
+	Kind            string              `json:"kind"` // ok | error | bare-http | invalid
+	HTTPStatus      int                 `json:"http_status"`
+	Err             *ErrSpec            `json:"err,omitempty"`
+	Msgs            [][]byte            `json:"msgs,omitempty"` // canonical bytes of decoded response messages
+	RawMsgs         [][]byte            `json:"-"`              // payloads as decoded from the wire (after decompression)
+	Headers         map[string][]string `json:"headers,omitempty"`
+	Trailers        map[string][]string `json:"trailers,omitempty"`
+	Problems        []string            `json:"problems,omitempty"`
+	Terminals       int                 `json:"terminals"`
+	ContentType     string              `json:"content_type,omitempty"`
+	RespCompression string              `json:"resp_compression,omitempty"`
+	BareBody        string              `json:"bare_body,omitempty"`
+	TrailersOnly    bool                `json:"trailers_only,omitempty"`
+	Allow           []string            `json:"allow,omitempty"`
 }
 
 func (o *Outcome) problem(format string, args ...any) {
